@@ -403,4 +403,149 @@ class Nested(Harness):
         return None if got == exp else f"from_dict(todict()) of nested table: {got}, expected {exp}"
 
 
-HARNESSES = [TableOps(), Nested()]
+class Conversions(Harness):
+    """table <-> dict <-> pandas round trips for a table with list-valued columns, on every row selection including the empty one;
+    and add_fields histories (the same field name added to the same table class with different declared types)"""
+    name = "conversions"
+    functions = ("BNPDataClass.todict/from_dict/topandas/from_data_frame", "PandasAdaptor.pandas_converter", "BNPDataClass.add_fields/extend")
+    bounds = {"quick": "GfaPath (name, list-of-int node_ids, list-of-int directions) with 3 rows of list lengths [3,0,1] / [0,2,2]: every row "
+                       "subset by a symbolic boolean mask (incl. no rows); dict round trip with symbolic list elements, pandas round trip with "
+                       "concrete ones; add_fields of field 'extra' declared str then DNA and DNA then str on one table class",
+              "thorough": "also 4 rows [2,0,0,1]"}
+    stubs = ("the pandas round trip runs on concrete cell values (a DataFrame cannot hold symbolic cells); only the row selection is symbolic there",)
+
+    def skeletons(self, tier, seed):
+        shapes = [[3, 0, 1], [0, 2, 2]] + ([[2, 0, 0, 1]] if tier == "thorough" else [])
+        out = [dict(case=c, lens=l) for c in ("dict", "pandas") for l in shapes]
+        out += [dict(case="retype", order=o, n=2) for o in (["str", "dna"], ["dna", "str"], ["dna", "dna"])]
+        return out
+
+    def inputs(self, skel, V):
+        if skel["case"] == "retype":
+            for i in range(2 * skel["n"]):
+                V.int(f"l{i}", 0, 3)
+            return
+        for i in range(sum(skel["lens"])):
+            V.int(f"v{i}", 0, 9)
+            V.int(f"d{i}", 0, 1)
+        for r in range(len(skel["lens"])):
+            V.int(f"m{r}", 0, 1)
+
+    def call(self, skel, x, ctx):
+        if skel["case"] == "retype":
+            return self._retype(skel, x, ctx)
+        from bionumpy.datatypes import GfaPath
+        from npstructures import RaggedArray
+        lens = skel["lens"]
+        n, tot = len(lens), sum(lens)
+        conc = skel["case"] == "pandas"
+        vals = [(3 * i + 1) % 10 for i in range(tot)] if conc else [x[f"v{i}"] for i in range(tot)]
+        dirs = [i % 2 for i in range(tot)] if conc else [x[f"d{i}"] for i in range(tot)]
+        mk = (lambda v: RaggedArray(__import__("numpy").array(v, dtype="int64"), lens)) if conc else (lambda v: RaggedArray(ctx.arr(v, "int64"), lens))
+        full = GfaPath([f"p{r}" for r in range(n)], mk(vals), mk(dirs))
+        bits = [x[f"m{r}"] for r in range(n)]
+        sel = full[ctx.arr(bits, "int64") == 1]
+        rows = lambda t: dict(names=[nm.to_string() for nm in t.name], node_ids=ctx.lst(t.node_ids), directions=ctx.lst(t.directions))
+        res = dict(bits=[bool(b == 1) for b in bits], n=len(sel))
+        if conc:
+            df = sel.topandas()
+            res["df_rows"] = int(df.shape[0])
+            res["back"] = rows(GfaPath.from_data_frame(df))
+        else:
+            d = sel.todict()
+            res["dict_lens"] = {k: len(v) for k, v in d.items()}
+            res["back"] = rows(GfaPath.from_dict(d))
+        return res
+
+    def _retype(self, skel, x, ctx):
+        from bionumpy.datatypes import Interval
+        from bionumpy.encoded_array import EncodedArray, EncodedRaggedArray, BaseEncoding
+        import bionumpy as bnp
+        n = skel["n"]
+        table = Interval(["c"] * n, list(range(n)), list(range(1, n + 1)))
+        letters = ctx.arr([65, 67, 71, 84], "uint8")                      # upper-case letters selected by symbolic codes
+        codes = ctx.arr([x[f"l{i}"] for i in range(2 * n)], "int64")
+        text = EncodedRaggedArray(EncodedArray(letters[codes], BaseEncoding), [2] * n)
+        out = []
+        for kind in skel["order"]:
+            tp = str if kind == "str" else bnp.DNAEncoding
+            r = table.add_fields({"extra": text}, field_type_map={"extra": tp})
+            enc = r.extra.encoding
+            out.append(dict(kind=kind, is_dna=bool(enc == bnp.DNAEncoding), is_base=bool(enc == BaseEncoding), raw=ctx.lst(r.extra.ravel().raw())))
+        return dict(steps=out)
+
+    def _exp_rows(self, skel, bits):
+        lens = skel["lens"]
+        starts = [sum(lens[:r]) for r in range(len(lens))]
+        keep = [r for r, b in enumerate(bits) if b]
+        return keep, starts
+
+    def post(self, skel, x, out):
+        if isinstance(out, Exc):
+            return False
+        if skel["case"] == "retype":
+            n = skel["n"]
+            conj = []
+            for st in out["steps"]:
+                if st["is_dna"] != (st["kind"] == "dna") or st["is_base"] != (st["kind"] == "str") or len(st["raw"]) != 2 * n:
+                    return False
+                for i, v in enumerate(st["raw"]):
+                    c = x[f"l{i}"].t
+                    asc = z3.If(c == 0, 65, z3.If(c == 1, 67, z3.If(c == 2, 71, 84)))
+                    conj.append(TI(v) == (asc if st["kind"] == "str" else c))          # DNAEncoding = ACGT: code == index
+            return z_and(conj)
+        lens = skel["lens"]
+        keep, starts = self._exp_rows(skel, out["bits"])
+        conc = skel["case"] == "pandas"
+        if out["n"] != len(keep):
+            return False
+        if conc and out["df_rows"] != len(keep):
+            return False
+        if not conc and any(v != len(keep) for v in out["dict_lens"].values()):
+            return False
+        b = out["back"]
+        if b["names"] != [f"p{r}" for r in keep] or len(b["node_ids"]) != len(keep) or len(b["directions"]) != len(keep):
+            return False
+        conj = [x[f"m{r}"].t == (1 if r in keep else 0) for r in range(len(lens))]
+        for j, r in enumerate(keep):
+            if len(b["node_ids"][j]) != lens[r] or len(b["directions"][j]) != lens[r]:
+                return False
+            for i in range(lens[r]):
+                k = starts[r] + i
+                conj.append(TI(b["node_ids"][j][i]) == ((3 * k + 1) % 10 if conc else x[f"v{k}"].t))
+                conj.append(TI(b["directions"][j][i]) == (k % 2 if conc else x[f"d{k}"].t))
+        return z_and(conj)
+
+    def oracle(self, skel, cx, cout):
+        if isinstance(cout, Exc):
+            return f"{skel}: raised {cout}"
+        if skel["case"] == "retype":
+            n = skel["n"]
+            for st in cout["steps"]:
+                codes = [cx[f"l{i}"] for i in range(2 * n)]
+                exp = [ord("ACGT"[c]) for c in codes] if st["kind"] == "str" else codes
+                if st["is_dna"] != (st["kind"] == "dna") or st["is_base"] != (st["kind"] == "str") or st["raw"] != exp:
+                    return (f"add_fields('extra' declared {skel['order']} in turn on one Interval table): the column added as {st['kind']} has "
+                            f"encoding dna={st['is_dna']} ascii={st['is_base']} and raw values {st['raw']}, expected {exp}")
+            return None
+        lens = skel["lens"]
+        bits = [cx[f"m{r}"] == 1 for r in range(len(lens))]
+        keep, starts = self._exp_rows(skel, bits)
+        conc = skel["case"] == "pandas"
+        val = lambda k: ((3 * k + 1) % 10 if conc else cx[f"v{k}"])
+        dr = lambda k: (k % 2 if conc else cx[f"d{k}"])
+        exp = dict(names=[f"p{r}" for r in keep], node_ids=[[val(starts[r] + i) for i in range(lens[r])] for r in keep],
+                   directions=[[dr(starts[r] + i) for i in range(lens[r])] for r in keep])
+        what = "topandas/from_data_frame" if conc else "todict/from_dict"
+        if cout["n"] != len(keep):
+            return f"selection of rows {keep} has {cout['n']} rows"
+        if conc and cout["df_rows"] != len(keep):
+            return f"topandas() of the selection of rows {keep}: the data frame has {cout['df_rows']} rows"
+        if not conc and any(v != len(keep) for v in cout["dict_lens"].values()):
+            return f"todict() of the selection of rows {keep} (list lengths {lens}): column lengths {cout['dict_lens']}, expected {len(keep)} each"
+        if cout["back"] != exp:
+            return f"{what} round trip of rows {keep}: {cout['back']}, expected {exp}"
+        return None
+
+
+HARNESSES = [TableOps(), Nested(), Conversions()]
